@@ -26,6 +26,10 @@ int verif_snlen, verif_js_sf, verif_js_dur, verif_js_frate; double verif_js_star
 int verif_room;       /* feature slots from the current write position to the end of the allocation */
 /* C08 */
 int verif_noise_reset;
+/* C03: frame counters */
+int verif_steps;      /* number of search steps taken */
+int verif_fwd_sum;    /* frames searched so far as reported by search_module_forward */
+int verif_raw_calls;
 /* C20 */
 size_t verif_keylen;  /* length of the NUL-terminated key handed to key2hash */
 #define SPEC_UP(c) (((c) >= 'a' && (c) <= 'z') ? (char)((c) - 32) : (char)(c))
